@@ -22,6 +22,11 @@ ListOK(e) ==
        LET h == K + q  fw == WalkF(nx, h, nx[h], M + 1)  bw == WalkF(pv, h, pv[h], M + 1) IN
        /\ fw = Ls[q] /\ bw = Reverse(Ls[q])
        /\ \A x \in Elems(fw) \cup {h} : pv[nx[x]] = x /\ nx[pv[x]] = x
+  \* the traversal macros (upper / lower case spelling, removal-safe variant) visit exactly the abstract sequence:
+  \* mac = per head <<NEXT, PREV, next, prev, SAFE_NEXT, SAFE_PREV>>
+  /\ \A q \in {1, 2} : LET o == (q - 1) * 6 IN
+       /\ e.mac[o + 1] = Ls[q] /\ e.mac[o + 3] = Ls[q] /\ e.mac[o + 5] = Ls[q]
+       /\ e.mac[o + 2] = Reverse(Ls[q]) /\ e.mac[o + 4] = Reverse(Ls[q]) /\ e.mac[o + 6] = Reverse(Ls[q])
 
 RECURSIVE Chain(_, _, _)
 Chain(f, c, fuel) == IF c = 0 \/ fuel = 0 THEN <<>> ELSE <<c>> \o Chain(f, f[c], fuel - 1)
@@ -32,6 +37,7 @@ SlistOK(e) ==
        LET s == Chain(nx, nx[K + q], M + 1) IN
        /\ s = Ls[q]
        /\ e.post.tail[q] = (IF Len(s) = 0 THEN K + q ELSE s[Len(s)])     \* the tail designates the last node
+       /\ LET o == (q - 1) * 3 IN e.mac[o + 1] = Ls[q] /\ e.mac[o + 2] = Ls[q] /\ e.mac[o + 3] = Ls[q]     \* traversal macros
 
 Accept(e) == IF "tail" \in DOMAIN e.post THEN SlistOK(e) ELSE ListOK(e)
 
